@@ -17,6 +17,7 @@
      clampq q              := q clamped into [-1, 1]  (_clamp_speed on a number)
      events: MLvl speed applied mode - one per completed _apply_speed/stop/coast; MSleep q - one
              per call of the package-level sleep;  sleeps / lvl_speeds / lvl_applied project them
+     mtrace ops m          := all events of the history ops from m, in order
      chain R l             := adjacent elements of l are related by R;  qge x y := y <= x
    Floats are exact rationals; == is equality of rationals. *)
 From Coq Require Import ZArith QArith List Bool.
@@ -218,6 +219,17 @@ Theorem C19_run_for : forall m d v qd qv,
 Proof. exact DCMotorP.run_for_exact. Qed.
 Print Assumptions C19_run_for.
 
+(* every history sleeps exactly the sum of the durations of its ramp()/run_for() calls that do not
+   raise ([op_duration op] = duration_ms if [raises op] = None, else 0 - a function of the call alone) *)
+Theorem C19_motor_history_sleep : forall ops m,
+  qsum (sleeps (mtrace ops m)) == qsum (map op_duration ops).
+Proof. exact DCMotorP.trace_sleep. Qed.
+Print Assumptions C19_motor_history_sleep.
+
+Theorem C19_motor_step_sleep : forall m op, qsum (sleeps (mevents (mstep m op))) == op_duration op.
+Proof. exact DCMotorP.step_sleep. Qed.
+Print Assumptions C19_motor_step_sleep.
+
 (* ====================================================================== *)
 (* IEEE specials (findings F-C19-motor-nan-speed, F-C19-motor-nonfinite-duration); *)
 (* model of the affected validations over floats with specials: Host/ActuatorsX.v  *)
@@ -354,3 +366,10 @@ Example C19_motor_history_nonvacuous :
   mrun [MRunFor (PI 0) (PI 0); MRamp (PI 0) (PI 0)] m_init = mkMotor (PI 2, PI 3, PI 5) 0 false Coast 0 LastOther.
 Proof. vm_compute. repeat split. Qed.
 Print Assumptions C19_motor_history_nonvacuous.
+
+Example C19_motor_history_sleep_nonvacuous :
+  let ops := [MRamp (PI 1) (PI 100); MInvert; MRunFor (PF (5 # 2)) (PI 1); MRunFor (PI 20) PO; MRamp (PI 1) (PI (-1)); MStop] in
+  map op_duration ops = [100 # 1; 0; 5 # 2; 0; 0; 0] /\
+  sleeps (mtrace ops m_init) = repeat (100 / 20) 20 ++ [5 # 2].
+Proof. vm_compute. split; reflexivity. Qed.
+Print Assumptions C19_motor_history_sleep_nonvacuous.
